@@ -179,7 +179,7 @@ def operands(n):
     ]
 
 
-OPS = ['add', 'attr', 'item', 'label', 'lslice', 'replace', 'values_arr', 'values_bad', 'values_scalar', 'add_attr', 'newattr', 'strict']
+OPS = ['add', 'attr', 'item', 'label', 'lslice', 'replace', 'values_arr', 'values_bad', 'values_misshapen', 'values_scalar', 'add_attr', 'newattr', 'strict']
 
 
 def apply(c, op, optag, opval, target, n, span, extra):
@@ -201,6 +201,13 @@ def apply(c, op, optag, opval, target, n, span, extra):
     elif op == 'values_bad':
         sh = np.shape(c.values)
         c.values = np.full((sh[0], (sh[1] if len(sh) > 1 else n) + 1), 2.0)
+    elif op == 'values_misshapen':
+        # the right number of elements in the wrong arrangement: raveled, a column, transposed
+        sh = np.shape(c.values)
+        rows, cols = (sh[0], sh[1]) if len(sh) > 1 else (0, n)
+        arr = np.arange(rows * cols, dtype=float) + 0.5
+        how = ['ravel', 'column', 'transpose', 'row'][len(str(target or '')) % 4] if rows else 'ravel'
+        c.values = arr if how == 'ravel' else (arr.reshape(-1, 1) if how == 'column' else (arr.reshape(cols, rows) if how == 'transpose' else arr.reshape(1, -1)))
     elif op == 'values_scalar':
         c.values = opval if np.ndim(opval) == 0 and opval is not None and not isinstance(opval, str) else 1
     elif op == 'add_attr':
@@ -261,6 +268,10 @@ def make(kind, n, strict):
 def step(ctx, c, twin, dtypes, hist, kind, n, span, op, optag, opval_factory, target, extra):
     desc = [op, optag, target, repr(extra)]
     before = snap(c)
+    try:
+        before_values_shape = tuple(np.shape(c.values))
+    except Exception:
+        before_values_shape = ()
     strict_now = bool(c.strict)
     outcome = 'ok'
     _factory = opval_factory
@@ -331,6 +342,16 @@ def step(ctx, c, twin, dtypes, hist, kind, n, span, op, optag, opval_factory, ta
             ctx.violation('unknown-name-accepted', f'{kind}: {desc} for a name that is not a variable -> {outcome}; attributes {before["attrs"]} -> {after["attrs"]}', case)
             return False
     text_into_numeric = isinstance(operand, np.ndarray) and operand.dtype.kind in 'USO' and target in before['index'] and before['series'][target][1].kind in 'fiub'
+    if op in ('values_bad', 'values_misshapen'):
+        sh = before_values_shape
+        wrong = op == 'values_bad' or (len(sh) > 1 and sh[0] * sh[1] > 0 and not (sh[0] == 1 and sh[1] == 1) and not (op == 'values_misshapen' and sh[0] == 1 and False))
+        if len(sh) > 1 and sh[0] >= 1 and (op == 'values_bad' or sh[0] * sh[1] > 1):
+            ctx.count('misshapen_values_assignments')
+            # (a 1 x n container given n raveled numbers, or a row, is the right shape after all)
+            fits = op == 'values_misshapen' and sh[0] == 1 and len(str(target or '')) % 4 in (0, 3)
+            if not fits and (outcome == 'ok' or not series_same(before, after)):
+                ctx.violation('values-misshapen-accepted', f'{kind}: values = <array of the wrong shape for {sh}> ({desc}) -> {outcome}; series changed: {not series_same(before, after)}', case)
+                return False
     if outcome != 'ok' and text_into_numeric:
         ctx.count('failed_value_conversions_not_asserted')     # see ASSUMPTIONS: not a "cannot fit" category of the statement
     elif outcome != 'ok' and op in ('add', 'attr', 'item', 'label', 'lslice', 'replace'):
@@ -436,7 +457,7 @@ def run_shard(ctx):
     idx = 0
     ncat = len(operands(3))
     value_ops = ['add', 'attr', 'item', 'label', 'lslice', 'replace', 'add_attr', 'newattr']
-    plain_ops = ['values_arr', 'values_bad', 'values_scalar', 'strict']
+    plain_ops = ['values_arr', 'values_bad', 'values_misshapen', 'values_scalar', 'strict']
     single = [(op, oi) for op in value_ops for oi in range(ncat)] + [(op, 0) for op in plain_ops]
     # exhaustive: length 1 after a fixed prefix; length 2 (quick: sampled stride)
     for kind in ('container', 'model', 'linker'):
